@@ -38,6 +38,47 @@ def run(ctx):
     compared_container_fields(ctx, 'R16.7', 'units')
     from ..statrules import memo_soundness
     memo_soundness(ctx, 'R16.8', ['units'])
+    r169_canonical_unit_text(ctx)
+
+
+def r169_canonical_unit_text(ctx):
+    """The unit text of a generic SI value (`x._unit = x.siunit(..)`) is what `SI(value, text)` / `str_to_sisig` must read back: every site
+    that derives it uses the one canonical format -- divider, no hat, dot between units -- (arguments bound to siunit's own signature, so
+    positional and keyword calls are the same call).  Sibling agreement: the sites were confirmed by reading; a site with other arguments
+    prints a text the parser refuses (e.g. 'm/rads.2')."""
+    prog = ctx.prog
+    ctx.rule('R16.9', 'every derivation of the unit text of a generic SI value calls siunit(div=True, hat=\'\', dot=\'.\') -- the format str_to_sisig reads back')
+    mod = prog.module('units')
+    CANON = {'div': 'True', 'hat': "''", 'dot': "'.'"}
+    n = 0
+    for oc, fn, m in prog.functions():
+        if m is not mod:
+            continue
+        for a in [x for x in ast.walk(fn) if isinstance(x, ast.Assign)]:
+            if not (len(a.targets) == 1 and isinstance(a.targets[0], ast.Attribute) and a.targets[0].attr == '_unit' and isinstance(a.value, ast.Call)
+                    and isinstance(a.value.func, ast.Attribute) and a.value.func.attr == 'siunit'):
+                continue
+            n += 1
+            c = a.value
+            got = dict(zip(('div', 'hat', 'dot'), [unparse(x) for x in c.args]))
+            for kw in c.keywords:
+                if kw.arg is not None:
+                    got[kw.arg] = unparse(kw.value)
+            # defaults of siunit: div=True, hat='', dot=''
+            full = {'div': got.get('div', 'True'), 'hat': got.get('hat', "''"), 'dot': got.get('dot', "''")}
+            full = {k: v.replace('"', "'") for k, v in full.items()}
+            if any(isinstance(x, ast.Starred) for x in c.args) or any(kw.arg is None for kw in c.keywords) \
+                    or not all(isinstance(x, ast.Constant) for x in list(c.args) + [kw.value for kw in c.keywords]):
+                ctx.note(f'R16.9: {oc.name if oc else ""}.{fn.name}:{a.lineno}: arguments of siunit are not literals ({short(c, 50)}); no verdict for this site')
+                continue
+            ok = full == CANON
+            where = f'{oc.name}.{fn.name}' if oc else fn.name
+            ctx.ob('R16.9', f'{where}:{a.lineno}', ok, sample=f'{where}: {short(a, 70)} -> {full}')
+            if not ok:
+                ctx.finding('R16.9', f'{where}:unit-text-format', oc, a,
+                            f'the unit text of the result is derived with siunit({", ".join(f"{k}={v}" for k, v in full.items())}); every other site (and the parser '
+                            f'str_to_sisig) uses div=True, hat=\'\', dot=\'.\': this result prints a unit that SI(value, unit) cannot read back', where=where)
+    ctx.floor('R16.9', 'derivations of a generic SI unit text', n, 4)
 
 
 def fmt(sig):
